@@ -319,4 +319,135 @@ theorem assemble_none {aw : List UInt64} {P : List (List Int64)} {L : List Int64
     · simp only [hw, if_false, ih, List.mem_cons, exists_eq_or_imp]
       simp [hw]
 
+/-! ### where the polygons are cut -/
+
+/-- a way member with role `outer` or no role starts a new polygon -/
+def isOuter (m : Member) : Bool := m.role = "outer" ∨ m.role = ""
+
+/-- the way members cut before every outer member -/
+def cut : List Member → List (List Member)
+  | [] => []
+  | [m] => [[m]]
+  | m :: m' :: ms =>
+    if isOuter m' then [m] :: cut (m' :: ms)
+    else match cut (m' :: ms) with
+      | p :: ps => (m :: p) :: ps
+      | [] => [[m]]
+
+def ids (ps : List (List Member)) : List (List Int64) := ps.map (·.map (·.id))
+
+/-- the polygons so far, the open loop `L`, and the cut of what is still to come -/
+def join (L : List Int64) (W : List Member) : List (List Int64) :=
+  match cut W, W with
+  | p :: ps, w :: _ =>
+    if L.isEmpty then ids (p :: ps) else if isOuter w then L :: ids (p :: ps) else (L ++ p.map (·.id)) :: ids ps
+  | _, _ => if L.isEmpty then [] else [L]
+
+theorem cut_cons_ne (m : Member) (ms : List Member) : ∃ p ps, cut (m :: ms) = (m :: p) :: ps := by
+  induction ms generalizing m with
+  | nil => exact ⟨[], [], rfl⟩
+  | cons m' ms ih =>
+    simp only [cut]
+    split
+    · exact ⟨[], _, rfl⟩
+    · obtain ⟨p, ps, h⟩ := ih m'
+      rw [h]
+      exact ⟨_, _, rfl⟩
+
+theorem isOuter_iff (m : Member) : (m.role = "outer" ∨ m.role = "") ↔ isOuter m = true := by simp [isOuter]
+
+theorem assemble_ways (aw : List UInt64) (W : List Member) (hw : ∀ m ∈ W, m.type = .way ∧ aw.contains (u m.id) = true)
+    (P : List (List Int64)) (L : List Int64) :
+    assemble aw P L W = some (P ++ join L W) := by
+  induction W generalizing P L with
+  | nil => cases L <;> simp [assemble, join, cut]
+  | cons m W ih =>
+    have hm := hw m (by simp)
+    have ih' := ih (fun x hx => hw x (by simp [hx]))
+    simp only [assemble, hm.1, hm.2, if_true, isOuter_iff]
+    rw [ih']
+    congr 1
+    cases W with
+    | nil =>
+      by_cases ho : isOuter m = true <;> cases L <;> simp [join, cut, ids, ho]
+    | cons m' W' =>
+      obtain ⟨p, ps, hp⟩ := cut_cons_ne m' W'
+      by_cases ho' : isOuter m' = true
+      · have hc : cut (m :: m' :: W') = [m] :: (m' :: p) :: ps := by simp [cut, ho', hp]
+        by_cases ho : isOuter m = true <;> cases L <;> simp [join, ids, ho, ho', hc, hp]
+      · have hc : cut (m :: m' :: W') = (m :: m' :: p) :: ps := by simp [cut, ho', hp]
+        by_cases ho : isOuter m = true <;> cases L <;> simp [join, ids, ho, ho', hc, hp]
+
+theorem assemble_filter (aw : List UInt64) (P : List (List Int64)) (L : List Int64) (ms : List Member) :
+    assemble aw P L ms = assemble aw P L (ms.filter (fun m => m.type = .way)) := by
+  induction ms generalizing P L with
+  | nil => rfl
+  | cons m ms ih =>
+    by_cases hw : m.type = .way
+    · simp only [hw, decide_true, List.filter_cons_of_pos, assemble, if_true]
+      split <;> simp [ih]
+    · simp only [hw, decide_false, Bool.false_eq_true, not_false_eq_true, List.filter_cons_of_neg, assemble, if_false]
+      exact ih _ _
+
+theorem join_nil (W : List Member) : join [] W = ids (cut W) := by
+  unfold join
+  cases W with
+  | nil => simp [cut, ids]
+  | cons w W =>
+    obtain ⟨p, ps, hp⟩ := cut_cons_ne w W
+    simp [hp]
+
+/-- when every way member is a closed way of the input, the polygons are the way members cut before every
+outer (or role-less) member -/
+theorem assemble_cut (aw : List UInt64) (ms : List Member)
+    (h : ∀ m ∈ ms, m.type = .way → aw.contains (u m.id) = true) :
+    assemble aw [] [] ms = some (ids (cut (ms.filter (fun m => m.type = .way)))) := by
+  rw [assemble_filter, assemble_ways aw _ (fun m hm => by
+    have := List.mem_filter.mp hm
+    exact ⟨by simpa using this.2, h m this.1 (by simpa using this.2)⟩)]
+  simp [join_nil]
+
+/-- every part of a cut is non-empty, only its first element can be an outer member — except for the
+very first part, which starts with whatever comes first — and the parts concatenate to the list -/
+theorem cut_spec (W : List Member) :
+    (cut W).flatten = W ∧ (∀ p ∈ cut W, p ≠ [] ∧ ∀ m ∈ p.tail, isOuter m = false) ∧
+    (∀ p ∈ (cut W).tail, ∃ m t, p = m :: t ∧ isOuter m = true) := by
+  induction W with
+  | nil => simp [cut]
+  | cons m W ih =>
+    cases W with
+    | nil => simp [cut]
+    | cons m' W' =>
+      obtain ⟨p, ps, hp⟩ := cut_cons_ne m' W'
+      obtain ⟨ih1, ih2, ih3⟩ := ih
+      rw [hp] at ih1 ih2 ih3
+      by_cases ho' : isOuter m' = true
+      · have hc : cut (m :: m' :: W') = [m] :: (m' :: p) :: ps := by simp [cut, ho', hp]
+        rw [hc]
+        refine ⟨by simpa using ih1, ?_, ?_⟩
+        · intro q hq
+          rcases List.mem_cons.mp hq with rfl | hq
+          · simp
+          · exact ih2 q hq
+        · intro q hq
+          simp only [List.tail_cons] at hq
+          rcases List.mem_cons.mp hq with rfl | hq
+          · exact ⟨m', p, rfl, ho'⟩
+          · exact ih3 q (by simpa using hq)
+      · have hc : cut (m :: m' :: W') = (m :: m' :: p) :: ps := by simp [cut, ho', hp]
+        rw [hc]
+        refine ⟨by simpa using ih1, ?_, ?_⟩
+        · intro q hq
+          rcases List.mem_cons.mp hq with rfl | hq
+          · refine ⟨by simp, ?_⟩
+            intro x hx
+            simp only [List.tail_cons] at hx
+            rcases List.mem_cons.mp hx with rfl | hx
+            · simpa using ho'
+            · exact (ih2 (m' :: p) (by simp)).2 x (by simpa using hx)
+          · exact ih2 q (by simp [hq])
+        · intro q hq
+          exact ih3 q (by simpa using hq)
+
+
 end B6.Lemmas.Osm
